@@ -81,8 +81,18 @@ def ulp(x):
     return float(np.spacing(abs(x))) if x != 0 else 5e-324
 
 
-def check_spec(ctx: Ctx, case):
+def check_spec(ctx: Ctx, case, _inner=False):
     import black_it.search_space as ss
+
+    if case.get("rebuilt") and not _inner:
+        # replaying a 'rebuilt' case: first build the specification once and overwrite its grids, as the original run did
+        try:
+            first = ss.SearchSpace(case["bounds"], case["precision"], verbose=False)
+            for g in first.param_grid:
+                g *= 100.0
+                g += 3.0
+        except Exception:  # noqa: BLE001
+            pass
 
     sub = case.get("sub", "spec")
     bounds, prec, as_array = case["bounds"], case["precision"], case.get("as_array", False)
@@ -180,6 +190,16 @@ def check_spec(ctx: Ctx, case):
     if not (np.array_equal(space.parameters_bounds, np.array(bounds, dtype=float))
             and np.array_equal(space.parameters_precision, np.array(prec, dtype=float))):
         ctx.fail("C15/stored-bounds", "stored bounds / precision differ from the input", sub, case)
+        return
+    if case.get("sub") == "random" and not case.get("rebuilt"):
+        # the grids of this object are overwritten in place (user code normalising them, say); building the same
+        # specification again must still yield the documented grid
+        for g in space.param_grid:
+            if g.flags.writeable:
+                g *= 100.0
+                g += 3.0
+        ctx.classes[f"{sub}:rebuilt-after-scribbling"] += 1
+        check_spec(ctx, dict(case, rebuilt=True), _inner=True)
 
 
 def lattice_specs(values, pvals, m, full_k2=True):
